@@ -30,9 +30,12 @@ pub fn expand_expr(expr: pr::Expr) -> Result<pl::Expr> {
         pr::ExprKind::FuncCall(v) => pl::ExprKind::FuncCall(pl::FuncCall {
             name: expand_expr_box(v.name)?,
             args: expand_exprs(v.args)?,
+            // in order of name, so that the error reported when several arguments
+            // fail does not depend on the iteration order of the map
             named_args: v
                 .named_args
                 .into_iter()
+                .sorted_by(|a, b| a.0.cmp(&b.0))
                 .map(|(k, v)| -> Result<_> { Ok((k, expand_expr(v)?)) })
                 .try_collect()?,
         }),
